@@ -274,6 +274,7 @@ func runProperty(def *PropDef, c *Check) {
 	c.ruleParamsStayUsed("E9", fns, paramBaseline())
 	c.ruleFoundIndexSentinel("E10", fns)
 	c.ruleSearchCoversWholeList("E11", fns)
+	c.ruleFailuresStayFailures("E12", fns)
 }
 
 // acceptedErrorIdioms: sites of the confirmed tree where a failed call is deliberately answered with a
